@@ -35,6 +35,10 @@ def check(ck):
     r05_5(ck)
     r05_6(ck)
     r05_7(ck)
+    from . import helpers as H
+    ck.rule('R05.8', 'get_in and hierarchy_depth, with which steps and their flow entries are found, keep their recursion skeleton')
+    H.get_in_shape(ck, 'R05.8')
+    H.hierarchy_depth_shape(ck, 'R05.8')
 
 
 def _loop_of(x, stop):
